@@ -28,6 +28,8 @@ type GenOpt struct {
 	NearTicks    bool // place resolves / re-fires close to flush ticks and inside deliveries
 	MultiInteg   bool // receivers with 2-3 integrations
 	SlowOnly     bool // faults are slow successes only
+	// MixedMatchers: route nodes mixing match, match_re and up to 4 new-style matchers
+	MixedMatchers bool
 }
 
 func dur(d time.Duration) *time.Duration { return &d }
@@ -84,7 +86,7 @@ func GenConfig(r *rand.Rand, o GenOpt) *Config {
 			ivNames = append(ivNames, ni.Name)
 		}
 	}
-	ro := gen.RouteOpt{MaxDepth: o.Depth, MaxFanout: o.Fanout, Receivers: names, Legacy: true, Timers: true, Intervals: ivNames, UniqueSiblings: true}
+	ro := gen.RouteOpt{MaxDepth: o.Depth, MaxFanout: o.Fanout, Receivers: names, Legacy: true, Timers: true, Intervals: ivNames, UniqueSiblings: true, MixedMatchers: o.MixedMatchers}
 	c.Route = gen.RouteTree(r, ro)
 	fixTimers(r, c.Route, o, true)
 	if o.Inhibit {
